@@ -504,8 +504,13 @@ class AnnotationsContext(Context):
 def _get_attribute_from_mro(
     typ: object, ctx: AttrContext, on_class: bool
 ) -> tuple[Value, object, bool]:
+    # Attributes that getattr() on the class finds on a custom metaclass only
+    # (EnumMeta.__iter__, ABCMeta.register, ...) are not attributes of the instances.
+    on_metaclass_only = not on_class and _is_on_metaclass_only(typ, ctx.attr)
     # Then go through the MRO and find base classes that may define the attribute.
-    if safe_isinstance(typ, type) and safe_issubclass(typ, Enum):
+    if on_metaclass_only:
+        pass
+    elif safe_isinstance(typ, type) and safe_issubclass(typ, Enum):
         # Special case, to avoid picking an attribute of Enum instances (e.g., name)
         # over an Enum member. Ideally we'd have a more principled way to support this
         # but I haven't thought of one.
@@ -590,7 +595,7 @@ def _get_attribute_from_mro(
     if attrs_type is not None:
         return attrs_type, typ, False
 
-    if not ctx.skip_mro:
+    if not ctx.skip_mro and not on_metaclass_only:
         # Even if we didn't find it any __dict__, maybe getattr() finds it directly.
         try:
             return KnownValue(getattr(typ, ctx.attr)), typ, True
@@ -601,6 +606,25 @@ def _get_attribute_from_mro(
             return AnyValue(AnySource.inference), typ, True
 
     return UNINITIALIZED_VALUE, object, False
+
+
+def _is_on_metaclass_only(typ: object, attr: str) -> bool:
+    """Whether attr comes from a custom metaclass of typ and not from typ's own MRO."""
+    if not safe_isinstance(typ, type):
+        return False
+    try:
+        if any(attr in base.__dict__ for base in type.mro(typ)):
+            return False
+        members = typ.__dict__.get("_member_map_")
+        if isinstance(members, dict) and attr in members:
+            return False
+        return any(
+            attr in base.__dict__
+            for base in type.mro(type(typ))
+            if base is not type and base is not object
+        )
+    except Exception:
+        return False
 
 
 def _static_hasattr(value: object, attr: str) -> bool:
